@@ -1031,7 +1031,7 @@ func queries3(thorough bool) []Query {
 	return out
 }
 
-// datasets3: the datasets of the many-values family (appended after the classic ones, so their indices do not move).
+// datasets3: the datasets of the many-values family.
 func datasets3(thorough bool) []Dataset {
 	out := []Dataset{
 		{Place: []int{3, 3, 3, 3, 3, 3}, Mode: "tsm", Pool: "values3"},
@@ -1066,8 +1066,11 @@ func datasets(thorough bool) []Dataset {
 		}
 	}
 	// simplest first: datasets without a delete, then the others
+	// the few datasets of the many-values family are not to be the ones a wall-budget cap cuts off: they go with the
+	// other datasets without a delete
+	out = append(datasets3(thorough), out...)
 	sort.SliceStable(out, func(i, j int) bool { return (out[i].Del == nil) && (out[j].Del != nil) })
-	return append(out, datasets3(thorough)...)
+	return out
 }
 
 func load(ds Dataset) (*mini.Fixture, mini.Bucket, error) {
@@ -1191,7 +1194,7 @@ func TestCheck(t *testing.T) {
 		Rule: "datasets × queries, complete product within the bounds. Series pool m0{a=x}, m0{a=y,b=z}, m1{a=x,b=z}, m1{b=w}, m2{a=y}; one point per series and shard group (two 1h groups A, B). " +
 			"Datasets: placements of the 5 series (absent / A / B / both; quick 3 placements, thorough 9) × one bucket delete through storage.Engine.DeleteBucketRangePredicate (quick: none, all-time a=x, range A no predicate, all-time m0 AND a=y; thorough + all-time _measurement=m0, range B b=z, all-time m1 AND b=w, range A a=x), layouts cache / tsm alternating (quick 12, thorough 72 datasets). " +
 			"Queries per dataset = APIs × authorizers × shard sets × conditions: authorizers nil, OpenAuthorizer and a fine-grained fake for EVERY subset of the 5 series (34); APIs Store.MeasurementNames, Store.TagKeys and Store.TagValues with shard id sets {A,B},{A},{B} (+{A,B,unknown id} thorough), SHOW MEASUREMENTS [WITH MEASUREMENT] [WHERE], SHOW TAG KEYS [FROM] [WHERE], SHOW TAG VALUES [FROM] WITH KEY =/!=/=~/IN [WHERE] through query.Executor → statement rewriter → StatementExecutor; condition = [_name filter: none, ='m0', !='m0', =~/m[01]/ (+ !~/0/ thorough)] AND [_tagKey clause: none, ='a', IN(a,b), !='a' (+ =~/a|b/, ='nokey' thorough)] AND [tag comparison: none or key∈{a,b} (+missing) × (= 'x', != 'x', = '', != '', =~ /x|z/, !~ /x/, =~ /^$/ (+ = 'y', != 'z', =~ /.*/, !~ /^$/ thorough))]. " +
-			"Many-values family (datasets appended after the classic ones): pool m0{a=p}, m0{a=q}, m0{a=r,b=z}, m1{a=q}, m1{a=r}, m2{b=z} – three values of tag a on three different series of ONE measurement; datasets: all series in both groups (tsm), placement (B,A,AB,A,B,AB) (cache) (thorough + placement (A,B,B,AB,AB,A) tsm and all-in-both followed by delete all-time a=q); queries = measurement listings only: Store.MeasurementNames, SHOW MEASUREMENTS × authorizers nil, OpenAuthorizer and a fine-grained fake for EVERY subset of the 6 series (66) × _name filter none, ='m0' (+ =~/m[01]/ thorough) × tag comparison a =~ /p|q/, /q|r/, /p|r/, /[pqr]/, /q/, a = 'q', 'r', a != 'p', 'q', a !~ /p|q/, /[pqr]/, b =~ /z|w/, b != 'z' (thorough + a = 'p', '', a != 'r', '', a !~ /q|r/, /r/, a =~ /.*/, b = 'z', b !~ /z/): every combination of which matching values of a measurement are carried by hidden series only occurs. " +
+			"Many-values family (own datasets, visited first): pool m0{a=p}, m0{a=q}, m0{a=r,b=z}, m1{a=q}, m1{a=r}, m2{b=z} – three values of tag a on three different series of ONE measurement; datasets: all series in both groups (tsm), placement (B,A,AB,A,B,AB) (cache) (thorough + placement (A,B,B,AB,AB,A) tsm and all-in-both followed by delete all-time a=q); queries = measurement listings only: Store.MeasurementNames, SHOW MEASUREMENTS × authorizers nil, OpenAuthorizer and a fine-grained fake for EVERY subset of the 6 series (66) × _name filter none, ='m0' (+ =~/m[01]/ thorough) × tag comparison a =~ /p|q/, /q|r/, /p|r/, /[pqr]/, /q/, a = 'q', 'r', a != 'p', 'q', a !~ /p|q/, /[pqr]/, b =~ /z|w/, b != 'z' (thorough + a = 'p', '', a != 'r', '', a !~ /q|r/, /r/, a =~ /.*/, b = 'z', b !~ /z/): every combination of which matching values of a measurement are carried by hidden series only occurs. " +
 			"Oracle: reference over the model of live (per queried shard set) and visible series – see the file header. non-trivial = queries whose reference lists ≥1 name (distinct by construction).",
 		Assumptions: []string{
 			"a series is live in a shard set iff it still holds a point in one of those shards (the delete semantics themselves are C17's business)",
